@@ -300,7 +300,7 @@ static void checkC05(Ctx& c, long idx, Rng& r) {
                 .set("V_after_fitVelocity", jSV(Va)).set("V_after_fitAngular", jSV(Vb)).set("V_after_fitLinear", jSV(Vc)).set("V_after_fitLinear_keeping_angular", jSV(Vd)); }; };
         const double FT = 1e-9;
         const bool negStretch = spec.type == MT_BendStretch && qt[1] < 0;
-        const bool sph = spec.type == MT_SphericalCoords, ell = spec.type == MT_Ellipsoid;
+        const bool ell = spec.type == MT_Ellipsoid;
         const bool nonSpherical = ell && !(spec.radii[0] == spec.radii[1] && spec.radii[1] == spec.radii[2]);
         State t = s;
         // (1) full transform
@@ -318,11 +318,13 @@ static void checkC05(Ctx& c, long idx, Rng& r) {
         g.sys.realize(t, Stage::Position); Xb = g.body.getMobilizerTransform(t);
         c.check("fitQ-rotation:" + ck, rotDiff(Xb.R().asMat33(), kt.R), FT, WF("setQToFitRotation(representable R_FM) does not reproduce it"));
         c.cover(cov + "|fitQ-rotation");
-        // (3) translation only. For a reversed mobilizer p_FM depends on the orientation, which a
-        // translation-only request must be free to keep: start from the target orientation.
+        // (3) translation only. Precondition: the target is representable *without changing the
+        // orientation coordinates* (the documentation lets a mobilizer use rotations to help but does
+        // not require it, and a reversed mobilizer's p_FM depends on the orientation): the start state
+        // shares its rotational coordinates with the target state.
         c.setPhase("C05 setQToFitTranslation " + cellKeyOpt(spec));
         { double qs[8]; for (int i = 0; i < nq; ++i) qs[i] = q0[i];
-          if (spec.reversed) for (int i = 0; i < refNRotQ(spec); ++i) qs[i] = qt[i];
+          for (int i = 0; i < refNRotQ(spec); ++i) qs[i] = qt[i];
           g.body.setQFromVector(t, toVector(qs, nq)); }
         g.body.setQToFitTranslation(t, Xt.p());
         g.sys.realize(t, Stage::Position); Xc = g.body.getMobilizerTransform(t);
@@ -336,7 +338,7 @@ static void checkC05(Ctx& c, long idx, Rng& r) {
         g.sys.realize(t, Stage::Position);
         g.body.setUToFitVelocity(t, SpatialVec(toVec3(kt.w), toVec3(kt.v)));
         g.sys.realize(t, Stage::Velocity); Va = g.body.getMobilizerVelocity(t);
-        c.check("fitU-velocity:" + ck + (sph && (spec.negAz || spec.negZe || spec.negRad) ? ":negated-option" : nonSpherical ? ":non-spherical" : ""),
+        c.check("fitU-velocity:" + ck + (nonSpherical ? ":non-spherical" : ""),
                 std::max(vecDiff(Va[0], kt.w), vecDiff(Va[1], kt.v)) / tv, FT, WF("setUToFitVelocity(representable V_FM) does not reproduce it"));
         c.cover(cov + "|fitU-velocity");
         c.setPhase("C05 setUToFitAngularVelocity " + cellKeyOpt(spec));
@@ -344,23 +346,28 @@ static void checkC05(Ctx& c, long idx, Rng& r) {
         g.sys.realize(t, Stage::Position);
         g.body.setUToFitAngularVelocity(t, toVec3(kt.w));
         g.sys.realize(t, Stage::Velocity); Vb = g.body.getMobilizerVelocity(t);
-        c.check("fitU-angular:" + ck + (sph && (spec.negAz || spec.negZe) ? ":negated-angle" : ""), vecDiff(Vb[0], kt.w) / tv, FT, WF("setUToFitAngularVelocity(representable w_FM) does not reproduce it"));
+        c.check("fitU-angular:" + ck, vecDiff(Vb[0], kt.w) / tv, FT, WF("setUToFitAngularVelocity(representable w_FM) does not reproduce it"));
         c.cover(cov + "|fitU-angular");
-        // linear only. A reversed mobilizer's v_FM depends on the current relative angular velocity;
-        // the plain key judges the request from a start with zero rotational speeds, a second
-        // request keeps non-zero rotational speeds (one root-cause key, judged only when the first passed).
+        // linear only. Precondition as for translations: representable without changing the rotational
+        // speeds (start shares them with the target). A reversed mobilizer's v_FM depends on the relative
+        // angular velocity: the plain key judges it with zero rotational speeds, a second request keeps
+        // non-zero ones (one root-cause key, judged only when the first passed).
         c.setPhase("C05 setUToFitLinearVelocity " + cellKeyOpt(spec));
-        { double us[8]; for (int i = 0; i < nu; ++i) us[i] = u0[i];
-          if (spec.reversed) { const int nr = mobHasQuat(spec.type) ? ((spec.type == MT_LineOrientation || spec.type == MT_FreeLine) ? 2 : 3) : refNRotQ(spec); for (int i = 0; i < nr && i < nu; ++i) us[i] = 0; }
-          g.body.setUFromVector(t, toVector(us, nu)); }
+        const int nRotU = std::min(nu, mobHasQuat(spec.type) ? ((spec.type == MT_LineOrientation || spec.type == MT_FreeLine) ? 2 : 3) : refNRotQ(spec));
+        double us[8], utl[8];
+        for (int i = 0; i < nu; ++i) { us[i] = u0[i]; utl[i] = ut[i]; }
+        for (int i = 0; i < nRotU; ++i) { us[i] = spec.reversed ? 0.0 : ut[i]; if (spec.reversed) utl[i] = 0.0; }
+        const Kin ktl = refKin(spec, qt, utl);
+        g.body.setUFromVector(t, toVector(us, nu));
         g.sys.realize(t, Stage::Position);
-        g.body.setUToFitLinearVelocity(t, toVec3(kt.v));
+        g.body.setUToFitLinearVelocity(t, toVec3(ktl.v));
         g.sys.realize(t, Stage::Velocity); Vc = g.body.getMobilizerVelocity(t);
-        const bool linOk = c.check("fitU-linear:" + ck + (sph && spec.negRad ? ":negated-radius" : nonSpherical ? ":non-spherical" : ""), vecDiff(Vc[1], kt.v) / tv, FT,
-                                   WF("setUToFitLinearVelocity(representable v_FM) does not reproduce it"));
+        const bool linOk = c.check("fitU-linear:" + ck + (nonSpherical ? ":non-spherical" : ""), vecDiff(Vc[1], ktl.v) / tv, FT,
+                                   [&] { return WF("setUToFitLinearVelocity(representable v_FM) does not reproduce it")().set("u_target_linear_test", jArr(utl, nu)).set("u_start_linear_test", jArr(us, nu)); });
         c.cover(cov + "|fitU-linear");
         if (spec.reversed && linOk) {
-            g.body.setUFromVector(t, toVector(u0, nu));
+            for (int i = 0; i < nRotU; ++i) us[i] = ut[i];
+            g.body.setUFromVector(t, toVector(us, nu));
             g.sys.realize(t, Stage::Position);
             g.body.setUToFitLinearVelocity(t, toVec3(kt.v));
             g.sys.realize(t, Stage::Velocity); Vd = g.body.getMobilizerVelocity(t);
@@ -429,7 +436,7 @@ static TreeState randomTreeState(const TreeDesc& d, Rng& r, bool zeroU) {
 }
 struct Tree {
     MultibodySystem sys; SimbodyMatterSubsystem matter; GeneralForceSubsystem forces;
-    Force::DiscreteForces* disc = nullptr;
+    std::unique_ptr<Force::DiscreteForces> disc;   // handle only; the element is owned by the subsystem
     std::vector<MobilizedBody> bodies; TreeDesc desc;
     Tree() : matter(sys), forces(sys) {}
     Tree(const Tree&) = delete;
@@ -443,7 +450,7 @@ struct Tree {
             MobSpec sp = n.spec;
             bodies.push_back(n.route == RouteBuiltin ? makeTested(P, X_PF, body, n.X_BM, sp) : makeByRoute(matter, P, X_PF, body, n.X_BM, sp, n.route, n.perm));
         }
-        disc = new Force::DiscreteForces(forces, matter);   // owned by the subsystem
+        disc.reset(new Force::DiscreteForces(forces, matter));
         if (gravity) Force::UniformGravity(forces, matter, *gravity);
     }
     State init() { State s = sys.realizeTopology(); if (desc.euler) matter.setUseEulerAngles(s, true); sys.realizeModel(s); return s; }
@@ -521,21 +528,20 @@ static void comparePhys(Ctx& c, const std::string& rel, const TreeDesc& d, const
         if (p >= 0 && bad[p]) { bad[k] = 1; c.obs("descendant-of-failing-body-not-judged"); continue; }
         const std::string nk = keyOf(k);
         auto W = [&, k]() { return wit().set("body", k).set("node", cellKeyOpt(d.nodes[k].spec)); };
+        // one key per body: the first quantity (in causal order) that differs
         bool ok = true;
+        auto J = [&](const char* qty, double resid, double tol) { if (!ok) { c.obs("later-quantity-of-failing-body-not-judged"); return; } ok = c.check(rel + ":" + qty + ":" + nk, resid, tol, W); };
         if (what & 1) {
             Transform Xe = X * a.X[k];
-            double pe = std::max(rotDiff(b.X[k].R().asMat33(), fromMat33(Xe.R().asMat33())), (b.X[k].p() - Xe.p()).norm() / (1 + Xe.p().norm()));
-            ok = c.check(rel + ":pose:" + nk, pe, 1e-10, W) && ok;
-            ok = c.check(rel + ":velocity:" + nk, spMax(b.V[k] - rotSV(R, a.V[k])) / vscale, 1e-10, W) && ok;
+            J("pose", std::max(rotDiff(b.X[k].R().asMat33(), fromMat33(Xe.R().asMat33())), (b.X[k].p() - Xe.p()).norm() / (1 + Xe.p().norm())), 1e-10);
+            J("velocity", spMax(b.V[k] - rotSV(R, a.V[k])) / vscale, 1e-10);
         }
-        if (what & 4) {
-            ok = c.check(rel + ":qdot:" + nk, arrDiff(a.qdot[k], b.qdot[k]) / (1 + arrMax(a.qdot[k])), 1e-10, W) && ok;
-            if (what & 2) ok = c.check(rel + ":qdotdot:" + nk, arrDiff(a.qdotdot[k], b.qdotdot[k]) / (ascale + arrMax(a.qdotdot[k])), tolc, W) && ok;
-        }
+        if (what & 4) J("qdot", arrDiff(a.qdot[k], b.qdot[k]) / (1 + arrMax(a.qdot[k])), 1e-10);
         if (what & 2) {
-            ok = c.check(rel + ":acceleration:" + nk, spMax(b.A[k] - rotSV(R, a.A[k])) / ascale, tolc, W) && ok;
-            ok = c.check(rel + ":udot:" + nk, arrDiff(a.udot[k], b.udot[k]) / (ascale + arrMax(a.udot[k])), tolc, W) && ok;
-            ok = c.check(rel + ":reaction:" + nk, spMax(b.RM[k] - rotSV(R, a.RM[k])) / (fscale + ascale), tolc, W) && ok;
+            J("udot", arrDiff(a.udot[k], b.udot[k]) / (ascale + arrMax(a.udot[k])), tolc);
+            J("acceleration", spMax(b.A[k] - rotSV(R, a.A[k])) / ascale, tolc);
+            if (what & 4) J("qdotdot", arrDiff(a.qdotdot[k], b.qdotdot[k]) / (ascale + arrMax(a.qdotdot[k])), tolc);
+            J("reaction", spMax(b.RM[k] - rotSV(R, a.RM[k])) / (fscale + ascale), tolc);
         }
         if (!ok) bad[k] = 1;
     }
@@ -618,7 +624,7 @@ static void checkConvert(Ctx& c, long ci, Rng& r) {
         if (c.require("convert:finite-acceleration", qa.finite && qb.finite, wit)) comparePhys(c, std::string("convert:") + dir, d, qa, qb, Transform(), 2, nodeKey, wit);
     } else c.skip("ill-conditioned-M");
     // and back
-    if (!risky || true) {
+    {
         c.setPhase(std::string("C06 convert back ") + d.shortStr());
         State back;
         if (euler) t.matter.convertToEulerAngles(out, back); else t.matter.convertToQuaternions(out, back);
@@ -631,8 +637,10 @@ static void checkConvert(Ctx& c, long ci, Rng& r) {
             double e1 = vmaxabs(q1 - q2);
             if (mobHasQuat(d.nodes[k].spec.type)) {
                 if (!euler) { Vector q3 = q2; for (int i = 0; i < 4; ++i) q3[i] = -q3[i]; e1 = std::min(e1, vmaxabs(q1 - q3)); }   // q and -q are the same rotation
-                else {   // Euler angles: compare modulo 2*pi
-                    e1 = 0; for (int i = 0; i < q1.size(); ++i) { double dlt = q1[i] - q2[i]; if (i < 3) dlt = std::remainder(dlt, 2 * PI); e1 = std::max(e1, std::fabs(dlt)); } }
+                else {   // Euler angles: the same rotation has several angle triples; compare the rotations (own maths) and the rest of q
+                    M3<double> Ra = Rxyz(q1[0], q1[1], q1[2]), Rb = Rxyz(q2[0], q2[1], q2[2]);
+                    e1 = rotDiff(toMat33(Ra), Rb);
+                    for (int i = 3; i < q1.size(); ++i) e1 = std::max(e1, std::fabs(q1[i] - q2[i])); }
             }
             dq = std::max(dq, e1);
         }
@@ -706,14 +714,14 @@ static void checkReverseSwap(Ctx& c, long ci, Rng& r) {
     const Transform X_AF = randFrame(r, fA), X_BM = randFrame(r, fB);
     const MassProperties mpA = randMassProps(r), mpB = randMassProps(r);
     const Vec3 grav = randVec3(r, 9.8);
-    struct Sys { MultibodySystem sys; SimbodyMatterSubsystem matter; GeneralForceSubsystem forces; Force::DiscreteForces* disc; MobilizedBody base, tip; Sys() : matter(sys), forces(sys), disc(nullptr) {} };
+    struct Sys { MultibodySystem sys; SimbodyMatterSubsystem matter; GeneralForceSubsystem forces; std::unique_ptr<Force::DiscreteForces> disc; MobilizedBody base, tip; Sys() : matter(sys), forces(sys) {} };
     Sys F, Rv;
     MobSpec fs = spec; fs.reversed = false; MobSpec rs = spec; rs.reversed = true;
     F.base = MobilizedBody::Free(F.matter.updGround(), Transform(), Body::Rigid(mpA), Transform());      // body A
     F.tip = makeTested(F.base, X_AF, Body::Rigid(mpB), X_BM, fs);                                        // body B, X between A's F and B's M
     Rv.base = MobilizedBody::Free(Rv.matter.updGround(), Transform(), Body::Rigid(mpB), Transform());    // body B
     Rv.tip = makeTested(Rv.base, X_BM, Body::Rigid(mpA), X_AF, rs);                                      // body A, same joint defined from A to B
-    for (Sys* y : {&F, &Rv}) { y->disc = new Force::DiscreteForces(y->forces, y->matter); Force::UniformGravity(y->forces, y->matter, grav); }
+    for (Sys* y : {&F, &Rv}) { y->disc.reset(new Force::DiscreteForces(y->forces, y->matter)); Force::UniformGravity(y->forces, y->matter, grav); }
     State sf = F.sys.realizeTopology(), sr = Rv.sys.realizeTopology();
     if (euler) { F.matter.setUseEulerAngles(sf, true); Rv.matter.setUseEulerAngles(sr, true); }
     F.sys.realizeModel(sf); Rv.sys.realizeModel(sr);
